@@ -138,6 +138,9 @@ pub fn engine_cfg(case: &Case, path: &str) -> EngineCfg {
             e.verify_commit = false;
         }
         "C06" => e.c06 = true,
+        // the differential run must do exactly the same reads inside the surviving
+        // transactions (in-transaction reads legitimately change which pages a commit rewrites)
+        "C06-diff" => e.c06 = true,
         "C03" => {
             // a reader and a growing writer on one thread self-deadlock by construction
             // (documented misuse): start large enough that no commit extends the file
@@ -178,12 +181,121 @@ pub fn execute(case: &Case) -> Verdict {
         "long" => crate::long::execute(case),
         "cfg" => crate::cfg::execute(case),
         "compat" => crate::compat::execute(case),
-        "shuttle" => sh_child("oneshot", case).map(|o| crate::worker::verdict_from(&o)).unwrap_or_else(|e| Verdict { harness_error: Some(e), ..Default::default() }),
+        "shuttle" => match sh_child("oneshot", case) {
+            Ok(o) => crate::worker::verdict_from(&o),
+            Err(e) if e.contains("signal") => Verdict {
+                violation: Some(crate::seq::Violation {
+                    oracle: "process-died".into(),
+                    site: "child".into(),
+                    detail: format!("executing the run killed its process: {}", e),
+                    step: 0,
+                    in_rw_tx: false,
+                }),
+                ..Default::default()
+            },
+            Err(e) => Verdict { harness_error: Some(e), ..Default::default() },
+        },
         other => Verdict { harness_error: Some(format!("unknown engine {}", other)), ..Default::default() },
     }
 }
 
+/// C06 (c): later commits behave exactly as if the abandoned transactions had never existed.
+/// The history is run again with every dropped write transaction and every read-only
+/// transaction removed; logical contents must agree at every commit, and so must the
+/// high-water mark and the number of free pages as long as only single pages were allocated
+/// (with multi-page runs the order siblings are written in, which follows hash order, can
+/// legitimately change where runs fit).
+fn c06_differential(case: &Case, first: &Verdict, commits: &[crate::seq::CommitRec]) -> Option<crate::seq::Violation> {
+    use crate::step::Step;
+    let mut kept: Vec<Step> = Vec::new();
+    let mut block: Vec<Step> = Vec::new();
+    let mut in_tx: Option<bool> = None;
+    let mut removed = 0;
+    for s in &first.issued {
+        match (in_tx, s) {
+            (None, Step::Begin { rw }) => {
+                in_tx = Some(*rw);
+                block = vec![s.clone()];
+            }
+            (None, _) => kept.push(s.clone()),
+            (Some(rw), Step::Commit) => {
+                block.push(s.clone());
+                if rw {
+                    kept.append(&mut block);
+                } else {
+                    removed += 1;
+                }
+                block.clear();
+                in_tx = None;
+            }
+            (Some(_), Step::Drop) => {
+                block.clear();
+                removed += 1;
+                in_tx = None;
+            }
+            (Some(_), Step::Reopen) => {
+                block.clear();
+                removed += 1;
+                in_tx = None;
+                kept.push(s.clone());
+            }
+            (Some(_), _) => block.push(s.clone()),
+        }
+    }
+    if removed == 0 {
+        return None;
+    }
+    let mut c2 = case.clone();
+    c2.steps = Some(kept);
+    c2.property = "C06-diff".into();
+    let (_, commits2) = exec_seq_full(&c2);
+    if commits2.len() != commits.len() {
+        // the shortened history did not reach the same number of commits (a failing call in it
+        // is some other oracle's business): nothing to compare
+        return None;
+    }
+    let mut single_pages_only = true;
+    for (a, b) in commits.iter().zip(commits2.iter()) {
+        if a.contents_digest != b.contents_digest {
+            return Some(crate::seq::Violation {
+                oracle: "accounting".into(),
+                site: "contents".into(),
+                detail: format!("commit {} leaves different contents when the {} abandoned transaction(s) before it are removed from the history", a.n, removed),
+                step: 0,
+                in_rw_tx: false,
+            });
+        }
+        if a.overflow > 0 || b.overflow > 0 {
+            single_pages_only = false;
+        }
+        if single_pages_only && (a.hwm != b.hwm || a.free != b.free) {
+            return Some(crate::seq::Violation {
+                oracle: "accounting".into(),
+                site: "pages".into(),
+                detail: format!(
+                    "after commit {} the file has high-water mark {} and {} free pages, but {} and {} when the {} abandoned transaction(s) are removed from the history",
+                    a.n, a.hwm, a.free, b.hwm, b.free, removed
+                ),
+                step: 0,
+                in_rw_tx: false,
+            });
+        }
+    }
+    None
+}
+
 pub fn exec_seq(case: &Case) -> Verdict {
+    let (mut v, commits) = exec_seq_full(case);
+    if case.property == "C06" && v.violation.is_none() && v.aborted.is_none() && v.harness_error.is_none() {
+        if let Some(x) = c06_differential(case, &v, &commits) {
+            v.violation = Some(x);
+        }
+        *v.counters.entry("differential_runs".into()).or_default() += 1;
+    }
+    v
+}
+
+pub fn exec_seq_full(case: &Case) -> (Verdict, Vec<crate::seq::CommitRec>) {
     let case = case.clone();
     let dir = fresh_dir("seq");
     let dir2 = dir.clone();
@@ -196,6 +308,7 @@ pub fn exec_seq(case: &Case) -> Verdict {
         };
         let ecfg = engine_cfg(&case, &path);
         let out = Engine::new(ecfg, src, &arena).run();
+        let commits = out.commits.clone();
         if std::env::var("JSIM_DEBUG").is_ok() {
             eprintln!("api-trace={:016x} log-hash={:016x} calls={} getrandom={}", out.trace, simos::log_hash(), simos::total_calls(), simos::getrandom_calls());
             if std::env::var("JSIM_DEBUG").unwrap() == "log" {
@@ -227,11 +340,11 @@ pub fn exec_seq(case: &Case) -> Verdict {
         if simos::writable_maps() > 0 {
             v.harness_error = Some("a writable shared mapping was created: stores through it bypass the seam".into());
         }
-        v
+        (v, commits)
     });
     match r {
         Ok(v) => v,
-        Err(e) => Verdict { harness_error: Some(e), ..Default::default() },
+        Err(e) => (Verdict { harness_error: Some(e), ..Default::default() }, Vec::new()),
     }
 }
 
